@@ -109,7 +109,7 @@ def rule_orphans_and_order(rep, prog, eff, sites, used):
             if not dom and nn[0] == 'bin' and nn[1] == 'Mul':
                 # length = (iterations of the element loop that contains the write) * size: zero when the loop body never ran
                 for il in loops.iter_loops(b, eff):
-                    if any(w["pos"][0] in il["blocks"] for w in ws) and any(loops.final_count_var(b, il, x) for x in (nn[2], nn[3])):
+                    if any(w["pos"][0] in il["blocks"] for w in ws) and any(loops.counts_items(b, il, x) for x in (nn[2], nn[3])):
                         loop_diff = True
             rep("R16.3.mark_after_write", inst, dom or loop_diff, c.where(),
                 "the write dominates the mark" if dom else ("extent is the loop's pointer difference / iteration count (zero when nothing was written)" if loop_diff else
